@@ -110,6 +110,9 @@ def obsStr (p : Params) (full : Bool) (c : Cache) (lb : String := "ok") : String
 structure St where
   p : Params := ⟨64, 16, 18446744073709551615⟩
   caches : Array (Option (Cache × Option CacheB)) := #[]
+  /-- set by a `# seq … lb=off` header: this sequence is replayed on Level A only (very long
+  sequences: the driver's per-step compaction of the Level B heap is linear in the allocation counter) -/
+  noLb : Bool := false
 
 def St.get? (s : St) (i : Nat) : Option (Cache × Option CacheB) := (s.caches[i]?).join
 def St.set (s : St) (i : Nat) (c : Option (Cache × Option CacheB)) : St :=
@@ -204,6 +207,7 @@ def parseOp (toks : List String) : Option Op :=
     some (.iterate k (parseCalls calls) (fate == "f"))
   | ["dbg"] => some .debugFmt
   | ["nop"] => some (.iterate .iter [] false)
+  | ["readers", _, _] => some (.iterate .iter [] false)   -- concurrent `&self` readers: no effect on the model
   | _ => none
 
 def isSortedOp : Op → Bool
@@ -239,7 +243,8 @@ def resLine (p : Params) (full sorted : Bool) (r : Res) (live : Option Cache) (l
 
 def processLine (s : St) (line : String) : St × String :=
   let line := line.trimAscii.toString
-  if line.isEmpty || line.startsWith "#" then (s, "#")
+  if line.startsWith "# seq" then ({ s with noLb := (line.splitOn " ").contains "lb=off" }, "#")
+  else if line.isEmpty || line.startsWith "#" then (s, "#")
   else
     let (opPart, hintPart) := match line.splitOn " | " with
       | [a, b] => (a, b)
@@ -264,9 +269,9 @@ def processLine (s : St) (line : String) : St × String :=
       | _ => (s, "bad-op")
     | mode :: "new" :: rest =>
       match nats rest with
-      | some [i, m] => (s.set i (some (Cache.new m, some (CacheB.new m 0))),
+      | some [i, m] => (s.set i (some (Cache.new m, if s.noLb then none else some (CacheB.new m 0))),
           "ret=unit st=ok h=0 ev=[]" ++ (if mode == "F" then " hs=[]" else "") ++ obsStr s.p (mode == "F") (Cache.new m))
-      | some [i, m, n] => (s.set i (some (Cache.withCapacity m n, some (CacheB.new m n))),
+      | some [i, m, n] => (s.set i (some (Cache.withCapacity m n, if s.noLb then none else some (CacheB.new m n))),
           "ret=unit st=ok h=0 ev=[]" ++ (if mode == "F" then " hs=[]" else "") ++ obsStr s.p (mode == "F") (Cache.withCapacity m n))
       | _ => (s, "bad-op")
     | [mode, "clone", i, j, base] =>
